@@ -111,8 +111,10 @@ class ObjidArrays(FunctionContract):
         if not isinstance(exc, ValueError):
             return None
         n = S.size(a["run"])
-        bad = S.OR(S.NOT(_sizes_equal([a[nm] for nm in self.names])),
-                   S.exists(0, n, lambda i: S.NOT(in_range(OBJ_FIELDS, self._vals(a, i)))))
+        eqs = _sizes_equal([a[nm] for nm in self.names])
+        if not S.is_sym(eqs) and not eqs:
+            return {"ValueError_only_for_bad_input": True}
+        bad = S.OR(S.NOT(eqs), S.exists(0, n, lambda i: S.NOT(in_range(OBJ_FIELDS, self._vals(a, i)))))
         return {"ValueError_only_for_bad_input": bad}
 
     def samples(self, rng):
@@ -222,8 +224,10 @@ class SpecobjidArrays(FunctionContract):
         if a["line"] is not None and a["index"] is not None:
             return {"line_and_index_rejected": True}
         n = S.size(a["plate"])
-        bad = S.OR(S.NOT(_sizes_equal(self._arrs(a))),
-                   S.exists(0, n, lambda i: S.NOT(in_range(SPEC_FIELDS, self._vals(a, i)))))
+        eqs = _sizes_equal(self._arrs(a))
+        if not S.is_sym(eqs) and not eqs:
+            return {"ValueError_only_for_bad_input": True}
+        bad = S.OR(S.NOT(eqs), S.exists(0, n, lambda i: S.NOT(in_range(SPEC_FIELDS, self._vals(a, i)))))
         return {"ValueError_only_for_bad_input": bad}
 
     def samples(self, rng):
